@@ -91,4 +91,62 @@ def merge (lay : Lay) (a b : Part) : Option Part :=
                        dropLog := a.vec.dropLog ++ b.vec.dropLog, escaped := a.vec.escaped ++ b.vec.escaped },
               addr := a.addr }
 
+/-! ## `partition` — `BumpBox<[T]>::partition` (l.2662-2668) = `partition_in_place` (`src/polyfill/iter.rs`
+    l.5-45, the algorithm of `Iterator::partition_in_place`) followed by `split_at(true_count)` -/
+
+/-- `mem::swap(head, tail)` on two initialised slots -/
+def swapSlots (v : Vec) (i j : Nat) : M Vec :=
+  match v.slots[i]?, v.slots[j]? with
+  | some (.init a), some (.init b) => .ok { v with slots := (v.slots.set i (.init b)).set j (.init a) }
+  | some .hole, _ => .error (.readHole i)
+  | _, some .hole => .error (.readHole j)
+  | _, _ => .error (.outOfBounds (max i j))
+
+/-- the state of the two nested searches: looking for the first `false` from the front, or (having
+    found it at `head`) for the last `true` from the back -/
+inductive Seek where
+  | firstFalse
+  | lastTrue (head : Nat)
+  deriving DecidableEq, Repr
+
+/-- `partition_in_place`: `f` / `b` are the two ends of the `iter_mut()` that is consumed from both
+    sides, `tc` is `true_count`; `fuel = b - f` (every step evaluates the predicate on one new element).
+    Result: `some true_count`, or `none` if the predicate panicked. -/
+def partitionLoop : (fuel : Nat) → Vec → (f b tc : Nat) → Seek → List Outcome → M (Vec × Option Nat × List Outcome)
+  | 0, v, _, _, tc, _, o => .ok (v, some tc, o)
+  | fuel + 1, v, f, b, tc, .firstFalse, o =>
+    match peek v f with                                   -- `iter.find(is_false(..))`: `predicate(&**x)`
+    | .error e => .error e
+    | .ok _ =>
+      match o with
+      | [] => .ok (v, none, [])
+      | .panic :: o => .ok (v, none, o)
+      | .ret p :: o =>
+        if p ≠ 0 then partitionLoop fuel v (f + 1) b (tc + 1) .firstFalse o   -- `*true_count += p as usize; !p`
+        else partitionLoop fuel v (f + 1) b tc (.lastTrue f) o
+  | fuel + 1, v, f, b, tc, .lastTrue head, o =>
+    match peek v (b - 1) with                             -- `iter.rfind(is_true(..))`
+    | .error e => .error e
+    | .ok _ =>
+      match o with
+      | [] => .ok (v, none, [])
+      | .panic :: o => .ok (v, none, o)
+      | .ret p :: o =>
+        if p ≠ 0 then
+          match swapSlots v head (b - 1) with             -- `mem::swap(head, tail); true_count += 1`
+          | .error e => .error e
+          | .ok v => partitionLoop fuel v f (b - 1) (tc + 1) .firstFalse o
+        else partitionLoop fuel v f (b - 1) tc (.lastTrue head) o
+
+/-- `partition(f)`: `(left, right)`, or — the predicate panicked — the box (moved into the call) is
+    dropped by the unwind with everything in it -/
+def partition (lay : Lay) (bombs : List Id) (p : Part) (o : List Outcome) : M (Option (Part × Part) × Vec × List Outcome) :=
+  match partitionLoop p.vec.len p.vec 0 p.vec.len 0 .firstFalse o with
+  | .error e => .error e
+  | .ok (v, some tc, o) => .ok (splitAt lay { p with vec := v } tc, v, o)
+  | .ok (v, none, o) =>
+    match dropRange bombs true (setLen v 0) 0 v.len with
+    | .error e => .error e
+    | .ok (v, _) => .ok (none, v, o)
+
 end Coll
